@@ -61,13 +61,18 @@ type eligibility struct {
 	E        []string // eligible providers (hex), in context order
 	Prices   []int64
 	Total    int64
-	ExclNoBinding, ExclUnavailable, ExclQoS, ExclPrice int
+	ExclNoBinding, ExclUnavailable, ExclQoS, ExclPrice, ExclNoRate int
 	Unparsed bool
 }
 
 // eligible computes the providers that qualify for a batch of rc at block time tNs, from
 // bindings as they are after the expiry phase (bindSnap), volumes as before the block.
-func eligible(rc types.RequestContext, bindSnap, volSnap *Snapshot, tNs int64) eligibility {
+//
+// baseDenom: the base denomination in force. Every price and every coin of the harness is in
+// "stake"; when a governance change has moved the base denomination elsewhere no exchange-rate
+// service is registered, so no price can be expressed in the base denomination and nobody
+// qualifies (the module announces "no_exchange_rate" and the batch is skipped).
+func eligible(rc types.RequestContext, bindSnap, volSnap *Snapshot, tNs int64, baseDenom string) eligibility {
 	var el eligibility
 	cap := stakeOf(rc.ServiceFeeCap)
 	for _, p := range rc.Providers {
@@ -88,6 +93,10 @@ func eligible(rc types.RequestContext, bindSnap, volSnap *Snapshot, tNs int64) e
 		rp, err := ParseRefPricing(b.Pricing)
 		if err != nil {
 			el.Unparsed = true
+			continue
+		}
+		if baseDenom != "stake" {
+			el.ExclNoRate++
 			continue
 		}
 		price := rp.Fee(tNs, volOf(volSnap, hx(rc.Consumer), rc.ServiceName, ph))
@@ -164,7 +173,7 @@ func (o *c06) Step(r *StepRec) []Violation {
 		if totalReached(rc) {
 			continue // no further batch is due (C10); nothing to say about eligibility
 		}
-		el := eligible(rc, post, pre, r.TimeNs)
+		el := eligible(rc, post, pre, r.TimeNs, o.w.cfg.baseDenom())
 		if el.Unparsed {
 			o.hit("unparsed_pricing")
 			continue
@@ -188,6 +197,9 @@ func (o *c06) Step(r *StepRec) []Violation {
 		}
 		if el.ExclPrice > 0 {
 			o.hit("excluded_price")
+		}
+		if el.ExclNoRate > 0 {
+			o.hit("excluded_no_exchange_rate")
 		}
 		issued := newReqsOf(r, cid)
 		prc, exists := post.Ctxs[cid]
